@@ -2,7 +2,7 @@
 //! preemption at arbitrary basic blocks, one address layout, one set of hash keys, and (through
 //! those hash keys) one scenario. Runs the separate crate /verif/miri against /repo/lib.
 
-use crate::batch::VERIF_DIR;
+use crate::batch::verif_dir;
 use serde_json::{json, Value};
 use std::process::{Command, Stdio};
 use std::time::Instant;
@@ -18,7 +18,7 @@ const FLAGS: &str = "-Zmiri-tree-borrows -Zmiri-preemption-rate=0.1 -Zmiri-ignor
 fn invoke(scn: &str, base: u64, seed_flag: &str) -> Option<(String, bool)> {
     let out = Command::new("cargo")
         .args(["+nightly", "miri", "run", "--offline", "--", scn, &base.to_string()])
-        .current_dir(format!("{}/miri", VERIF_DIR))
+        .current_dir(format!("{}/miri", verif_dir()))
         .env("MIRIFLAGS", format!("{} {}", FLAGS, seed_flag))
         .env("CARGO_NET_OFFLINE", "true")
         .stdin(Stdio::null())
@@ -52,9 +52,9 @@ pub fn run(prop: &str, scn: &str, base: u64, seeds: u64) -> MiriReport {
     let found = findings(&text);
     let mut violations = 0;
     if !found.is_empty() {
-        let _ = std::fs::create_dir_all(format!("{}/replays", VERIF_DIR));
+        let _ = std::fs::create_dir_all(format!("{}/replays", verif_dir()));
         let k = failing.first().cloned();
-        let path = format!("{}/replays/{}-miri-{}-{}.json", VERIF_DIR, prop, base, k.map(|k| k.to_string()).unwrap_or_else(|| "x".into()));
+        let path = format!("{}/replays/{}-miri-{}-{}.json", verif_dir(), prop, base, k.map(|k| k.to_string()).unwrap_or_else(|| "x".into()));
         let file = json!({"property": prop, "engine": "miri", "scenario": scn, "argv_seed": base, "miri_seed": k, "miriflags": FLAGS, "findings": found});
         let _ = std::fs::write(&path, serde_json::to_string_pretty(&file).unwrap());
         for f in found.iter().take(3) {
